@@ -146,12 +146,42 @@ def gen_run_cases(rng, count):
         reps = rng.choice([1, 1, 2, 3, 3, 4, 5])
         pseed = 0 if rng.random() < 0.1 else rng.randrange(1, 1 << 30)
         line = "run %s %d %d %d %d" % (fmt_input(s, w, nvt, cells, sel), ns, ncb, reps, pseed)
-        if sel and ns == 1 and rng.random() < 0.2:
-            # error path: the task of the first job throws in assemble / scatter / finish / combine at one cell;
-            # the job must still terminate and the following jobs on the same assembler must be exact again
-            where = rng.choice([1, 2, 3, 4] if ncb in (1, 2) else [1, 2, 3])
+        if sel and rng.random() < 0.25:
+            # error path, every strategy / worker count / job type: the task of the first job throws in assemble /
+            # scatter / finish / combine at one cell; the job must still terminate and the following jobs on the same
+            # assembler must be exact again
+            opts = [1, 3] + ([2] if ns in (1, 2) else []) + ([4] if ncb in (1, 2) else [])
+            where = rng.choice(opts)
             line += " %d %d" % (where, rng.choice(sel))
         out.append(line)
+    return out
+
+
+def gen_session_cases(rng, count):
+    """session stream: an explicit sequence of jobs on ONE assembler.  Pattern as in C16's history stream: the same
+    'real' job as 2nd, 4th and 5th job, after warm-ups of other kinds (a job without scatter, a job whose task throws);
+    plus random sequences"""
+    out = []
+    for _ in range(count):
+        _, nvt, cells = gen_mesh(rng, n=rng.choice([1, 2, 3, 4, 6, 9, 12, 16, 20, 24, 32]))
+        sel = gen_subset(rng, len(cells))
+        s = rng.choice([0, 2, 2, 3, 4, 4])
+        w = rng.choice([0, 1, 2, 2, 3, 4, 5, 8, len(sel) + 2])
+        real = (1, rng.randrange(2), 0, 0)
+        if rng.random() < 0.6:
+            warm1 = (0, 1, 0, 0)
+            warm2 = (1, 1, rng.choice([1, 2, 3, 4]), rng.choice(sel)) if sel else (1, 0, 0, 0)
+            jobs = [warm1, real, warm2, real, real]
+        else:
+            jobs = []
+            for _ in range(rng.choice([3, 4, 6])):
+                a, b = rng.randrange(2), rng.randrange(2)
+                fw = 0
+                if sel and rng.random() < 0.25:
+                    fw = rng.choice([1, 3] + ([2] if a else []) + ([4] if b else []))
+                jobs.append((a, b, fw, rng.choice(sel) if fw else 0))
+        out.append("session %s %d %d %s" % (fmt_input(s, w, nvt, cells, sel), rng.randrange(1, 1 << 30), len(jobs),
+                                            " ".join("%d %d %d %d" % j for j in jobs)))
     return out
 
 
@@ -376,10 +406,21 @@ def oracle_dist(case, out):
 
 
 def parse_trace(case):
-    """-> (input tuple, ns, ncb, reps, pseed, impl tokens after '|')"""
+    """-> (input tuple, ns, ncb, reps, pseed, impl tokens after '|'); parse_trace.specs = [(ns, ncb, fail|None)] per
+    job, parse_trace.fail = failure spec of the first job (run cases)"""
     t = case.split()
     c = Tk(t, 1)
     inp = c.input()
+    if t[0] == "strace":
+        pseed, nj = c.nat(), c.nat()
+        specs = []
+        for _ in range(nj):
+            a, b, fw, fc = c.nat(), c.nat(), c.nat(), c.nat()
+            specs.append((bool(a), bool(b), (fw, fc) if fw else None))
+        assert c.tok() == "|"
+        parse_trace.specs = specs
+        parse_trace.fail = next((f for (_, _, f) in specs if f), None)
+        return inp, 3, 3, nj, pseed, t[c.p:]
     ns, ncb, reps, pseed = c.nat(), c.nat(), c.nat(), c.nat()
     bar = c.tok()
     fail = None
@@ -390,6 +431,8 @@ def parse_trace(case):
         bar = c.tok()
     assert bar == "|"
     parse_trace.fail = fail
+    parse_trace.specs = [((r % 2 == 0) if ns == 2 else bool(ns), (r % 2 == 0) if ncb == 2 else bool(ncb),
+                          fail if r == 0 else None) for r in range(reps)]
     return inp, ns, ncb, reps, pseed, t[c.p:]
 
 
@@ -476,21 +519,20 @@ def oracle_trace(case, out):
         nw, runs = parse_reps(impl)
     except (IndexError, ValueError, AssertionError) as e:
         return "unparsable run output (%s)" % e
-    if len(runs) != reps:
+    if len(runs) != len(parse_trace.specs):
         return "number of repetitions differs"
-    ns_mode, ncb_mode = ns, ncb
-    fail = parse_trace.fail
+    specs = parse_trace.specs
     open_fences = set()       # state of the assembler's fences, carried from job to job (hook H2 log)
+    seen_results = {}         # history independence: the same job type gives the same result at every position
     for r, (seqs, vec, integral, ncomb, hooks, evs) in enumerate(runs):
-        ns = (r % 2 == 0) if ns_mode == 2 else bool(ns_mode)
-        ncb = (r % 2 == 0) if ncb_mode == 2 else bool(ncb_mode)
+        ns, ncb, fail = specs[r]
         exp_vec = [0] * nvt
         if ns:
             for cidx in sel:
                 for k, v in enumerate(cells[cidx]):
                     exp_vec[v] += (cidx + 1) * (k + 1)
         exp_int = sum(7 * (cidx + 1) for cidx in sel) if ncb else 0
-        failing = fail is not None and r == 0
+        failing = fail is not None
         # every job must start its protocol with all fences closed, whatever the previous job left open
         started = False
         for (k, t, a) in evs:
@@ -510,15 +552,30 @@ def oracle_trace(case, out):
             # error path: the job has terminated (we have its output); nothing may be assembled twice or outside the
             # selection, the critical sections stay exclusive; the partial results are not specified
             if len(set(done)) != len(done) or not set(done) <= set(sel):
-                return "repetition 0 (failing job): assembled cells %s" % done
+                return "repetition %d (failing job): assembled cells %s" % (r, done)
             if not any(k == 13 for (k, t, a) in evs) and fail[1] in sel and fail[0] != 4:
-                return "repetition 0: the injected failure at cell %d was never reached, but the job ended" % fail[1]
+                return "repetition %d: the injected failure at cell %d was never reached, but the job ended" % (r, fail[1])
             err, _ = scan_events(cells, evs)
             if err:
-                return "repetition 0 (failing job): %s" % err
+                return "repetition %d (failing job): %s" % (r, err)
             continue
         if done != sorted(sel):
             return "repetition %d: assembled cells %s, selected %s (every selected cell exactly once)" % (r, done, sorted(sel))
+        # combine() must run under `_thread_mutex` on worker threads (probe 14; lock events 20/21 with hook H2b)
+        if nw >= 1:
+            held = None
+            for (k, t, a) in evs:
+                if k == 14 and a == 0:
+                    return "repetition %d: thread %d runs the body of combine() without holding the assembler's mutex" % (r, t)
+                if k == 20:
+                    if held is not None:
+                        return "repetition %d: threads %d and %d hold the combine mutex at the same time" % (r, held, t)
+                    held = t
+                elif k == 21:
+                    held = None
+        key = (ns, ncb)
+        if seen_results.setdefault(key, (vec, integral, ncomb)) != (vec, integral, ncomb):
+            return "repetition %d: the same job gives a different result than at an earlier position of the session" % r
         if vec != exp_vec:
             return "repetition %d: assembled vector %s differs from the single-threaded one %s" % (r, vec, exp_vec)
         if integral != exp_int:
@@ -539,7 +596,7 @@ def oracle_trace(case, out):
 def oracle_tsan(case, out):
     if is_abnormal(out) or not out.startswith("R "):
         return "assemble() under ThreadSanitizer ended with %s" % out[:80]
-    return oracle_trace("trace " + case[4:] + " | " + out, out)
+    return oracle_trace(("strace " + case[8:] if case.startswith("session ") else "trace " + case[4:]) + " | " + out, out)
 
 
 def nontrivial_dist(case):
@@ -574,7 +631,7 @@ def describe_dist(case):
 def describe_trace(case):
     try:
         (s, w, nvt, cells, sel), ns, ncb, reps, pseed, impl = parse_trace(case)
-        keys = ["strategy:%d" % s, "scatter:%s combine:%s" % ("alt" if ns == 2 else ns, "alt" if ncb == 2 else ncb),
+        keys = ["strategy:%d" % s, "session" if ns == 3 else "scatter:%s combine:%s" % ("alt" if ns == 2 else ns, "alt" if ncb == 2 else ncb),
                 "jobs-per-assembler:%d" % reps, "cells-selected:" + bucket(len(sel))]
         if impl and impl[0] == "R":
             nw, runs = parse_reps(impl)
@@ -584,8 +641,12 @@ def describe_trace(case):
                 keys.append("two-scatters-overlapped-in-time")
             if parse_trace.fail:
                 keys.append("task-throws-in:" + {1: "assemble", 2: "scatter", 3: "finish", 4: "combine"}[parse_trace.fail[0]])
-                if any(k == 12 for r in runs[:1] for (k, t, a) in r[5]):
+                if any(k == 12 for r in runs for (k, t, a) in r[5]):
                     keys.append("okay=false-cascaded-through-a-fence-wait")
+            if any(k == 14 and a == 1 for r in runs for (k, t, a) in r[5]):
+                keys.append("combine-under-mutex-observed")
+            if any(k == 20 for r in runs for (k, t, a) in r[5]):
+                keys.append("hook-H2b-lock-events")
             if any(blocked_waits(r[5]) for r in runs):
                 keys.append("fence-wait-blocked")
         return keys
@@ -604,10 +665,74 @@ def canon(out):
 
 # ---------------------------------------------------------------------------------------------
 
+TLC_INSTANCES = [
+    # (machine, n, comb, lists): small instances explored exhaustively by the Lean driver AND by TLC
+    ("L", 2, True, ([0, 1, 2, 3, 4, 5], [0, 2, 5])),
+    ("L", 2, False, ([0, 2, 3, 5, 6, 9], [0, 3, 5])),
+    ("L", 3, True, ([0, 1, 3, 4, 6, 7, 8, 9, 10], [0, 2, 5, 8])),
+    ("C", 2, True, ([0, 3, 5],)),
+    ("C", 3, False, ([0, 4, 6],)),
+    ("C", 3, True, ([0, 1, 4],)),
+]
+
+
+def tlc_crosscheck():
+    """supporting evidence (not a proof): the hand-written TLA+ translations tla/c17/*.tla of the Lean protocol
+    machines have exactly as many reachable states and transitions as the Lean machines (driver op `explore`), and TLC
+    confirms the invariants Safe, CombineMutex, deadlock-freedom and termination under weak fairness.
+    -> (list of result dicts, error text or None)"""
+    import shutil
+    import subprocess
+    import tempfile
+    if shutil.which("tlc") is None:
+        return [], None
+    lines = []
+    for m, n, comb, lists in TLC_INSTANCES:
+        lines.append("explore %s %d %d %s" % (m, n, int(comb), " ".join("%d %s" % (len(l), " ".join(map(str, l))) for l in lists)))
+    lean = vlib.run_lines(vlib.driver_cmd(PROP), lines, jobs=1)
+    res, err = [], None
+    src = os.path.join(vlib.VERIF, "tla", "c17")
+    for (m, n, comb, lists), lo in zip(TLC_INSTANCES, lean):
+        t = lo.split()
+        if len(t) != 5 or t[0] != "X":
+            return res, "driver explore failed: " + lo
+        states, trans, fin, dead = map(int, t[1:])
+        tmp = tempfile.mkdtemp(prefix="c17tlc", dir=os.path.join(vlib.BUILD, "tmp") if os.path.isdir(os.path.join(vlib.BUILD, "tmp")) else None)
+        try:
+            mod = "C17Layered" if m == "L" else "C17Colored"
+            shutil.copy(os.path.join(src, mod + ".tla"), tmp)
+            seqs = ["<<%s>>" % ", ".join(map(str, l)) for l in lists]
+            names = ["Le", "Tl"] if m == "L" else ["Ce"]
+            with open(os.path.join(tmp, "MC.tla"), "w") as f:
+                f.write("---- MODULE MC ----\nEXTENDS %s\n%s\n====\n" % (
+                    mod, "\n".join("c%s == %s" % (nm, sq) for nm, sq in zip(names, seqs))))
+            with open(os.path.join(tmp, "MC.cfg"), "w") as f:
+                f.write("SPECIFICATION Spec\nCONSTANTS\n  n = %d\n  Comb = %s\n%s\nINVARIANTS Safe CombineMutex\nPROPERTY Terminates\n" % (
+                    n, "TRUE" if comb else "FALSE", "\n".join("  %s <- c%s" % (nm, nm) for nm in names)))
+            r = subprocess.run(["tlc", "-workers", "2", "-config", "MC.cfg", "MC.tla"], cwd=tmp, stdout=subprocess.PIPE,
+                               stderr=subprocess.STDOUT, text=True, timeout=600)
+            mt = None
+            for ln in r.stdout.split("\n"):
+                mm = __import__("re").match(r"(\d+) states generated (\d+) distinct states found 0 states left", ln.replace(",", ""))
+                if mm:
+                    mt = (int(mm.group(1)), int(mm.group(2)))
+            ok = "No error has been found" in r.stdout
+            item = {"machine": m, "n": n, "comb": comb, "lean_states": states, "lean_transitions": trans,
+                    "lean_deadlocks": dead, "tlc": mt, "tlc_no_error": ok}
+            res.append(item)
+            if not ok or mt is None or mt[1] != states or mt[0] != trans + 1 + fin or dead != 0:
+                err = "TLC cross-check differs: %s\n%s" % (item, r.stdout[-1500:])
+                break
+        finally:
+            shutil.rmtree(tmp, ignore_errors=True)
+    return res, err
+
+
 def record_runs(binary, run_cases, env):
     """pre-pass: execute the runs, glue case and recorded output into `trace` lines"""
     outs = vlib.run_lines([binary], run_cases, env=env)
-    return ["trace " + rc[4:] + " | " + o for rc, o in zip(run_cases, outs)]
+    return [("strace " + rc[8:] if rc.startswith("session ") else "trace " + rc[4:]) + " | " + o
+            for rc, o in zip(run_cases, outs)]
 
 
 def main(argv):
@@ -640,10 +765,11 @@ def main(argv):
             dist_cases, run_cases, recorded = [], [line], []
     else:
         dist_cases = CORPUS_DIST + gen_dist_cases(rng, 80000 if thorough else 8000, thorough)
-        run_cases = CORPUS_RUN + gen_run_cases(rng, 40000 if thorough else 4000)
+        run_cases = CORPUS_RUN + gen_run_cases(rng, 40000 if thorough else 4000) + \
+            gen_session_cases(rng, 8000 if thorough else 800)
         recorded = []
         if thorough:
-            tsan_cases = CORPUS_RUN + gen_run_cases(rng, 4000)
+            tsan_cases = CORPUS_RUN + gen_run_cases(rng, 4000) + gen_session_cases(rng, 800)
     pre_violation = None
     try:
         traces = recorded + record_runs(binary, run_cases, env)
@@ -671,6 +797,14 @@ def main(argv):
                                        describe=None, signature=signature, env=env))
             streams.append(vlib.Stream("tsan-featjobs", gen_fjob_cases(rng, 1500), [tsan_bin], None, oracle=oracle_fjob,
                                        nontrivial=None, describe=describe_fjob, signature=signature, env=env))
+    tlc_res = []
+    if thorough and not args.replay:
+        try:
+            tlc_res, tlc_err = tlc_crosscheck()
+        except Exception as e:
+            tlc_res, tlc_err = [], "TLC cross-check could not run: %s" % e
+        if tlc_err:
+            pre_violation = (pre_violation or "") + "\n" + tlc_err
     if pre_violation:
         # make the failure visible through the pipeline: an unrunnable stream is a harness failure
         streams.append(vlib.Stream("record-runs", ["run-prepass-failed"], ["/bin/false"], None))
@@ -682,7 +816,9 @@ def main(argv):
             "also alternating on one assembler, seeded yields/sleeps and slow-starting threads, in 1 of 5 scatter runs the "
             "first job's task throws in assemble/scatter/finish/combine); the complete hook-H2 log (fence open/wait/close "
             "with their okay flag, scatter, combine, throw) of every job is replayed on the Lean machines starting from "
-            "the fence vector the previous job left; non-trivial = >= 2 worker threads actually used. featjobs: real FEAT "
+            "the fence vector the previous job left, the combine stage on the refined machines (lock / body / unlock); "
+            "sessions: explicit job sequences on one assembler (the same job as 2nd, 4th, 5th after a no-scatter warm-up "
+            "and a throwing job; random sequences); non-trivial = >= 2 worker threads actually used. featjobs: real FEAT "
             "Laplace-matrix / force-vector / function-integral jobs on 1D meshes vs exact rational values")
     return vlib.run_pipeline(PROP, args.tier, args.seed, lean, streams, t0, assumptions=[
         "Index modelled as unbounded Nat",
@@ -691,10 +827,18 @@ def main(argv):
         "fairness: every runnable thread is eventually scheduled and a thread blocked in ThreadFence::wait() returns "
         "once the fence is open (no lost wake-up of std::condition_variable); under it every real run is a maximal run of "
         "the model, which is finite and ends in the final state (variant-function theorems)",
+        "the mutex probe (try_lock from the owning thread must fail) relies on glibc's non-recursive default mutex; it "
+        "is compiled out of the ThreadSanitizer build; with hooks/H2b_combine_lock.diff applied the lock events are logged",
         "error path: a throwing task is modelled at the points where task code runs (constructor, prepare/assemble/"
         "finish between scatters, scatter, combine); results of a failing job are unspecified, only termination, "
         "exclusion and recovery of the following jobs are judged",
         "hook H2 (kernel/util/thread.hpp, guard FEAT_VERIF_HOOKS) logs every fence open / wait return / close, so the "
         "whole log is replayed step by step; if the hook were absent the validator would take the fence transitions of "
         "the model eagerly between the logged scatter/combine events"],
-        extra_cov={"rule": rule})
+        extra_cov={"rule": rule, "tlc_crosscheck_supporting_only": tlc_res,
+                   "runtime_clauses": {
+                       "no data race (C++ memory model)": "RUNTIME clause, not proved: observed by ThreadSanitizer in the "
+                       "thorough tier (streams tsan, tsan-featjobs: instrumented and real FEAT jobs, sessions, injected "
+                       "task failures); the Lean theorems assume sequentially consistent atomic steps",
+                       "combine() under _thread_mutex": "proved on the refined machines (xstep) and observed per run: lock "
+                       "events of hook H2b when present, otherwise the instrumented job's mutex probe"}})
